@@ -693,16 +693,29 @@ func checkC12(c *Check) {
 // every path from the function entry (or from the entry of the enclosing function literal) to pos is Lock.
 func locksHeldAt(p *Prog, fi *FuncInfo, pos token.Pos) map[*types.Var]bool {
 	info := fi.Info()
-	// innermost function literal containing pos
+	// innermost function literal containing pos (by node identity when the caller named the node: inlined copies of
+	// helper bodies keep the positions of the helper)
 	var body *ast.BlockStmt = fi.Decl.Body
-	ast.Inspect(fi.Decl.Body, func(x ast.Node) bool {
-		if fl, ok := x.(*ast.FuncLit); ok && posIn(fl.Body, pos) {
+	if lockAtNode != nil {
+		if fl := innermostLit(fi.Decl.Body, lockAtNode); fl != nil {
 			body = fl.Body
 		}
-		return true
-	})
+	} else {
+		ast.Inspect(fi.Decl.Body, func(x ast.Node) bool {
+			if fl, ok := x.(*ast.FuncLit); ok && posIn(fl.Body, pos) {
+				body = fl.Body
+			}
+			return true
+		})
+	}
 	f := p.FlowOf(info, body, fi.Name())
-	target, ok := f.PtOf(pos)
+	var target Pt
+	ok := false
+	if lockAtNode != nil {
+		target, ok = f.PtOfNode(lockAtNode)
+	} else {
+		target, ok = f.PtOf(pos)
+	}
 	held := map[*types.Var]bool{}
 	if !ok {
 		return held
@@ -772,12 +785,16 @@ func locksHeldAtIPd(p *Prog, fi *FuncInfo, pos token.Pos, depth int) map[*types.
 	// when the function exits; a closure bound to a local name that is only ever called inherits what every one of
 	// its call sites holds
 	var lit *ast.FuncLit
-	ast.Inspect(fi.Decl.Body, func(x ast.Node) bool {
-		if fl, ok := x.(*ast.FuncLit); ok && posIn(fl.Body, pos) {
-			lit = fl
-		}
-		return true
-	})
+	if lockAtNode != nil {
+		lit = innermostLit(fi.Decl.Body, lockAtNode)
+	} else {
+		ast.Inspect(fi.Decl.Body, func(x ast.Node) bool {
+			if fl, ok := x.(*ast.FuncLit); ok && posIn(fl.Body, pos) {
+				lit = fl
+			}
+			return true
+		})
+	}
 	if lit != nil {
 		for m := range litInherited(p, fi, lit, depth) {
 			if !touchesMutex(fi.Info(), lit.Body, m) {
@@ -803,7 +820,7 @@ func locksHeldAtIPd(p *Prog, fi *FuncInfo, pos token.Pos, depth int) map[*types.
 			case *ast.CallExpr:
 				if callee(info, n) == fi.Obj {
 					sites++
-					h := locksHeldAtIPd(p, caller, n.Pos(), depth+1)
+					h := withLockNode(n, func() map[*types.Var]bool { return locksHeldAtIPd(p, caller, n.Pos(), depth+1) })
 					if entry == nil {
 						entry = map[*types.Var]bool{}
 						for m := range h {
@@ -887,7 +904,7 @@ func litInherited(p *Prog, fi *FuncInfo, lit *ast.FuncLit, depth int) map[*types
 		return out
 	}
 	atExit := func(d *ast.DeferStmt) map[*types.Var]bool {
-		h := locksHeldAtIPd(p, fi, d.Pos(), depth+1)
+		h := withLockNode(d, func() map[*types.Var]bool { return locksHeldAtIPd(p, fi, d.Pos(), depth+1) })
 		// the body the defer statement belongs to
 		var body *ast.BlockStmt = fi.Decl.Body
 		ast.Inspect(fi.Decl.Body, func(x ast.Node) bool {
@@ -956,7 +973,7 @@ func litInherited(p *Prog, fi *FuncInfo, lit *ast.FuncLit, depth int) map[*types
 					}
 				}
 				if h == nil {
-					h = locksHeldAtIPd(p, fi, call.Pos(), depth+1)
+					h = withLockNode(call, func() map[*types.Var]bool { return locksHeldAtIPd(p, fi, call.Pos(), depth+1) })
 				}
 			}
 		}
@@ -982,4 +999,51 @@ func litInherited(p *Prog, fi *FuncInfo, lit *ast.FuncLit, depth int) map[*types
 		return map[*types.Var]bool{}
 	}
 	return out
+}
+
+
+// lockAtNode: when set, the lock queries locate their point by this node's identity instead of by position.
+var lockAtNode ast.Node
+
+func withLockNode(n ast.Node, f func() map[*types.Var]bool) map[*types.Var]bool {
+	old := lockAtNode
+	lockAtNode = n
+	defer func() { lockAtNode = old }()
+	return f()
+}
+
+// locksHeldAtNode: locksHeldAtIP for a syntax node.
+func locksHeldAtNode(p *Prog, fi *FuncInfo, n ast.Node) map[*types.Var]bool {
+	return withLockNode(n, func() map[*types.Var]bool { return locksHeldAtIP(p, fi, n.Pos()) })
+}
+
+// innermostLit: the innermost function literal of root whose body contains node n (identity).
+func innermostLit(root ast.Node, n ast.Node) *ast.FuncLit {
+	var res *ast.FuncLit
+	var stack []*ast.FuncLit
+	found := false
+	var walk func(x ast.Node)
+	walk = func(x ast.Node) {
+		ast.Inspect(x, func(y ast.Node) bool {
+			if found || y == nil {
+				return false
+			}
+			if y == n {
+				found = true
+				if len(stack) > 0 {
+					res = stack[len(stack)-1]
+				}
+				return false
+			}
+			if fl, ok := y.(*ast.FuncLit); ok && y != x {
+				stack = append(stack, fl)
+				walk(fl.Body)
+				stack = stack[:len(stack)-1]
+				return false
+			}
+			return true
+		})
+	}
+	walk(root)
+	return res
 }
